@@ -31,6 +31,7 @@ type SimOS struct {
 	FailErr   error
 	FailMatch func(call, op, path string) bool
 	fired     int64
+	FiredAt   string // "call:op" of the injected failure, once it fired
 
 	Calls int64
 }
@@ -54,6 +55,7 @@ func (o *SimOS) pre(call, op, path string) error {
 	if o.FailNth > 0 && (o.FailMatch == nil || o.FailMatch(call, op, path)) {
 		if n := atomic.AddInt64(&o.fired, 1); n == o.FailNth {
 			o.r.Count("fault.os_error")
+			o.FiredAt = call + ":" + op
 			o.r.Logf("n%d fault: os error at %s:%s %s", o.node, call, op, path)
 			if o.FailErr != nil {
 				return &os.PathError{Op: call, Path: path, Err: o.FailErr}
